@@ -223,4 +223,284 @@ theorem find_eq_of_longest (names : List Str) (text : Str) (hs : LenDesc names) 
     have : x.length = nm.length := Nat.le_antisymm (hmax x h1 h2) (h3 nm hmem hp)
     rw [prefix_same_length h2 hp this]
 
+/-! ## mass: count-weighted sum -/
+
+/-- mass of the monosaccharide called `k` (name or synonym) -/
+def monoMass (mono : List Entry) (isMono : Bool) (k : Str) : Option Rat :=
+  match monoEntry mono k with
+  | none => none
+  | some e => (if isMono then e.mono else e.avg).map Dec.toRat
+
+/-- `Σ mass(k) · v` over the items of the dict -/
+def massSum (mono : List Entry) (isMono : Bool) (g : Comp) : Rat :=
+  (g.map (fun kv => (monoMass mono isMono kv.1).getD 0 * kv.2.val)).sum
+
+theorem massSum_append (mono : List Entry) (isMono : Bool) (g₁ g₂ : Comp) :
+    massSum mono isMono (g₁ ++ g₂) = massSum mono isMono g₁ + massSum mono isMono g₂ := by
+  simp [massSum, List.sum_append]
+
+theorem glycanMassDict_eq_sum (mono : List Entry) (isMono : Bool) :
+    ∀ g : Comp, (∀ kv ∈ g, (monoMass mono isMono kv.1).isSome = true) →
+      glycanMassDict mono isMono g = .ok (massSum mono isMono g) := by
+  intro g
+  induction g with
+  | nil => intro _; rfl
+  | cons kv g ih =>
+    intro h
+    obtain ⟨k, v⟩ := kv
+    have hk := h (k, v) (by simp)
+    have ih' := ih (fun kv hkv => h kv (List.mem_cons_of_mem _ hkv))
+    simp only [glycanMassDict, ih', massSum, List.map_cons, List.sum_cons]
+    simp only [monoMass] at hk ⊢
+    cases hm : monoEntry mono k with
+    | none => rw [hm] at hk; cases hk
+    | some e =>
+      rw [hm] at hk
+      simp only at hk ⊢
+      cases hmm : (if isMono = true then e.mono else e.avg) with
+      | none => rw [hmm] at hk; cases hk
+      | some m => simp
+
+theorem glycanMassDict_append (mono : List Entry) (isMono : Bool) (g₂ : Comp) :
+    ∀ g₁ : Comp, glycanMassDict mono isMono (g₁ ++ g₂) =
+      (match glycanMassDict mono isMono g₁, glycanMassDict mono isMono g₂ with
+       | .ok a, .ok b => .ok (a + b)
+       | .error e, _ => .error e
+       | .ok _, .error e => .error e) := by
+  intro g₁
+  induction g₁ with
+  | nil =>
+    simp only [List.nil_append, glycanMassDict]
+    cases glycanMassDict mono isMono g₂ with
+    | error e => rfl
+    | ok b => simp
+  | cons kv g ih =>
+    obtain ⟨k, v⟩ := kv
+    simp only [List.cons_append, glycanMassDict, ih]
+    cases monoEntry mono k with
+    | none => rfl
+    | some e =>
+      simp only
+      cases (if isMono = true then e.mono else e.avg) with
+      | none => rfl
+      | some m =>
+        simp only
+        cases glycanMassDict mono isMono g with
+        | error er => rfl
+        | ok a =>
+          cases glycanMassDict mono isMono g₂ with
+          | error er => rfl
+          | ok b => simp only [Except.ok.injEq]; ring
+
+/-! ## composition: count-weighted sum -/
+
+/-- total count of element `el` in a dict (the dicts built here have every key once; summing makes the statement
+independent of that) -/
+def compVal (c : Comp) (el : Str) : Rat := (c.map (fun kv => if kv.1 = el then kv.2.val else 0)).sum
+
+theorem compVal_nil (el : Str) : compVal [] el = 0 := rfl
+theorem compVal_cons (kv : Str × Num) (c : Comp) (el : Str) :
+    compVal (kv :: c) el = (if kv.1 = el then kv.2.val else 0) + compVal c el := by
+  simp [compVal]
+
+theorem compVal_addTo (el k : Str) (v : Num) :
+    ∀ d : Comp, compVal (addTo d k v) el = compVal d el + (if k = el then v.val else 0) := by
+  intro d
+  induction d with
+  | nil => simp [addTo, compVal, Num.add, Num.zero, Num.ofInt]
+  | cons kv r ih =>
+    obtain ⟨k', v'⟩ := kv
+    simp only [addTo]
+    split
+    · rename_i hk
+      have hk' : k' = k := by simpa using hk
+      subst hk'
+      simp only [compVal_cons, Num.add]
+      split <;> ring
+    · simp only [compVal_cons, ih]; ring
+
+/-- `acc[el] += n · v` for every `(el, n)` of `c` (the inner loop of `_glycan_comp`) -/
+def addScaled (acc c : Comp) (v : Num) : Comp := c.foldl (fun a kv => addTo a kv.1 (Num.mul kv.2 v)) acc
+
+theorem compVal_addScaled (el : Str) (v : Num) :
+    ∀ (c acc : Comp), compVal (addScaled acc c v) el = compVal acc el + compVal c el * v.val := by
+  intro c
+  induction c with
+  | nil => intro acc; simp [addScaled, compVal_nil]
+  | cons kv r ih =>
+    intro acc
+    have := ih (addTo acc kv.1 (Num.mul kv.2 v))
+    simp only [addScaled, List.foldl_cons] at this ⊢
+    rw [this, compVal_addTo, compVal_cons]
+    simp only [Num.mul]
+    split <;> ring
+
+/-- elemental composition of the monosaccharide called `k` (name or synonym) -/
+def monoComp (mono : List Entry) (k : Str) : Option Comp :=
+  match monoEntry mono k with
+  | none => none
+  | some e =>
+    match e.comp with
+    | none => none
+    | some f =>
+      match parseChem f [] with
+      | .ok c => some c
+      | .error _ => none
+
+/-- the fold `_glycan_comp` performs when every key is known -/
+def compFold (mono : List Entry) (g : Comp) (acc : Comp) : Comp :=
+  g.foldl (fun a kv => addScaled a ((monoComp mono kv.1).getD []) kv.2) acc
+
+theorem glycanCompDict_eq_fold (mono : List Entry) :
+    ∀ (g acc : Comp), (∀ kv ∈ g, (monoComp mono kv.1).isSome = true) →
+      glycanCompDict mono g acc = .ok (compFold mono g acc) := by
+  intro g
+  induction g with
+  | nil => intro acc _; rfl
+  | cons kv g ih =>
+    intro acc h
+    obtain ⟨k, v⟩ := kv
+    have hk := h (k, v) (by simp)
+    have ih' := fun acc => ih acc (fun kv hkv => h kv (List.mem_cons_of_mem _ hkv))
+    simp only [glycanCompDict, compFold, List.foldl_cons]
+    simp only [monoComp] at hk ⊢
+    cases hm : monoEntry mono k with
+    | none => rw [hm] at hk; cases hk
+    | some e =>
+      rw [hm] at hk
+      simp only at hk ⊢
+      cases hc : e.comp with
+      | none => rw [hc] at hk; cases hk
+      | some f =>
+        rw [hc] at hk
+        simp only at hk ⊢
+        cases hp : parseChem f [] with
+        | error er => rw [hp] at hk; cases hk
+        | ok c =>
+          simp only [Option.getD_some]
+          rw [ih']
+          rfl
+
+/-- `Σ n_k(el) · v` over the items `(k, v)` of the dict -/
+def compSum (mono : List Entry) (g : Comp) (el : Str) : Rat :=
+  (g.map (fun kv => compVal ((monoComp mono kv.1).getD []) el * kv.2.val)).sum
+
+theorem compVal_compFold (mono : List Entry) (el : Str) :
+    ∀ (g acc : Comp), compVal (compFold mono g acc) el = compVal acc el + compSum mono g el := by
+  intro g
+  induction g with
+  | nil => intro acc; simp [compFold, compSum]
+  | cons kv g ih =>
+    intro acc
+    have := ih (addScaled acc ((monoComp mono kv.1).getD []) kv.2)
+    simp only [compFold, List.foldl_cons] at this ⊢
+    rw [this, compVal_addScaled]
+    simp only [compSum, List.map_cons, List.sum_cons]
+    ring
+
+theorem compSum_append (mono : List Entry) (g₁ g₂ : Comp) (el : Str) :
+    compSum mono (g₁ ++ g₂) el = compSum mono g₁ el + compSum mono g₂ el := by
+  simp [compSum, List.sum_append]
+
+theorem glycanCompDict_append (mono : List Entry) (g₂ : Comp) :
+    ∀ (g₁ acc : Comp), glycanCompDict mono (g₁ ++ g₂) acc =
+      (match glycanCompDict mono g₁ acc with
+       | .ok a => glycanCompDict mono g₂ a
+       | .error e => .error e) := by
+  intro g₁
+  induction g₁ with
+  | nil => intro acc; rfl
+  | cons kv g ih =>
+    intro acc
+    obtain ⟨k, v⟩ := kv
+    simp only [List.cons_append, glycanCompDict]
+    cases monoEntry mono k with
+    | none => rfl
+    | some e =>
+      simp only
+      cases e.comp with
+      | none => rfl
+      | some f =>
+        simp only
+        cases parseChem f [] with
+        | error er => rfl
+        | ok c => simp only; exact ih _
+
+/-! ## what a lookup returns -/
+
+theorem lookupLast_some (key : Entry → Str) (s : Str) (e : Entry) :
+    ∀ db : List Entry, lookupLast key s db = some e → e ∈ db ∧ key e = s := by
+  intro db
+  induction db with
+  | nil => intro h; cases h
+  | cons x r ih =>
+    intro h
+    simp only [lookupLast] at h
+    cases hr : lookupLast key s r with
+    | some y =>
+      rw [hr] at h
+      cases h
+      have := ih hr
+      exact ⟨List.mem_cons_of_mem _ this.1, this.2⟩
+    | none =>
+      rw [hr] at h
+      simp only at h
+      split at h
+      · rename_i hk
+        cases h
+        exact ⟨by simp, by simpa using hk⟩
+      · cases h
+
+theorem lookupSyn_some (s : Str) (e : Entry) :
+    ∀ db : List Entry, lookupSyn s db = some e → e ∈ db ∧ s ∈ e.syns := by
+  intro db
+  induction db with
+  | nil => intro h; cases h
+  | cons x r ih =>
+    intro h
+    simp only [lookupSyn] at h
+    cases hr : lookupSyn s r with
+    | some y =>
+      rw [hr] at h
+      cases h
+      have := ih hr
+      exact ⟨List.mem_cons_of_mem _ this.1, this.2⟩
+    | none =>
+      rw [hr] at h
+      simp only at h
+      split at h
+      · rename_i hk
+        cases h
+        exact ⟨by simp, by simpa using hk⟩
+      · cases h
+
+/-- a resolved key is the name or a synonym of the entry it resolves to -/
+theorem monoEntry_some (mono : List Entry) (k : Str) (e : Entry) (h : monoEntry mono k = some e) :
+    e ∈ mono ∧ (k = e.name ∨ k ∈ e.syns) := by
+  unfold monoEntry byName at h
+  cases hb : lookupLast (·.name) k mono with
+  | some y =>
+    rw [hb] at h
+    cases h
+    have := lookupLast_some _ _ _ _ hb
+    exact ⟨this.1, Or.inl this.2.symm⟩
+  | none =>
+    rw [hb] at h
+    have := lookupSyn_some _ _ _ h
+    exact ⟨this.1, Or.inr this.2⟩
+
+/-- the name of the entry a key resolves to (the key itself when unknown) -/
+def canon (mono : List Entry) (k : Str) : Str :=
+  match monoEntry mono k with
+  | some e => e.name
+  | none => k
+
+/-- in a table whose names resolve to their own entries, a key and its canonical name resolve identically -/
+theorem monoEntry_canon (mono : List Entry) (hname : ∀ e ∈ mono, monoEntry mono e.name = some e) (k : Str) :
+    monoEntry mono (canon mono k) = monoEntry mono k := by
+  unfold canon
+  cases h : monoEntry mono k with
+  | none => exact h
+  | some e => exact hname e (monoEntry_some mono k e h).1
+
 end Formula
